@@ -515,6 +515,37 @@ func extractC01() *lean {
 	l.def("s2sFirstLoop", "List String", leanStrList(s2sLoop), s2sLoop)
 	l.def("s2sVerifyVPCalls", "List String", leanStrList(s2sVerify), s2sVerify)
 
+	// deepening round 3: RegisterRevocation — ValidateRevocation's control flow and where subjectIssuer / vmIssuer / the resolve time come from
+	_, revF := parseFile("vcr/credential/revocation.go")
+	l.def("flow_ValidateRevocation", "List String", leanStrList(flow(revF, "ValidateRevocation")), flow(revF, "ValidateRevocation"))
+	var splits []string
+	if fd := funcDecl(ver, "RegisterRevocation"); fd != nil {
+		want := map[string]bool{"subjectIssuer": true, "vmIssuer": true, "subject": true, "vm": true, "metadata": true}
+		got := map[string]string{}
+		ast.Inspect(fd.Body, func(n ast.Node) bool {
+			if as, ok := n.(*ast.AssignStmt); ok && len(as.Lhs) == 1 {
+				if id, ok := as.Lhs[0].(*ast.Ident); ok && want[id.Name] {
+					got[id.Name] += c01Stmt(as)
+					// composite literals are printed without their fields by c01Expr: add them (the resolve time is the point here)
+					if ue, ok := as.Rhs[0].(*ast.UnaryExpr); ok {
+						if cl, ok := ue.X.(*ast.CompositeLit); ok {
+							for _, e := range cl.Elts {
+								if kv, ok := e.(*ast.KeyValueExpr); ok {
+									got[id.Name] += " " + c01Expr(kv.Key) + ": " + c01Expr(kv.Value)
+								}
+							}
+						}
+					}
+				}
+			}
+			return true
+		})
+		for _, k := range []string{"subjectIssuer", "vmIssuer", "subject", "vm", "metadata"} {
+			splits = append(splits, got[k])
+		}
+	}
+	l.def("registerRevocationSplits", "List String", leanStrList(splits), splits)
+
 	// StatusList2021.update: how a refreshed list replaces the stored copy (every column, the expanded bitstring included)
 	var onConflict []string
 	if fd := funcDecl(slv, "update"); fd != nil {
